@@ -198,6 +198,14 @@ K_XTREE = ("implicitfast: velocity derivatives of tendon dampers/actuators that 
 K_FREEGYRO = ("implicitfast: the C engine adds the gyroscopic (bias) velocity derivative for standalone free bodies "
               "(mjd_freeMhat local solve); MJX's implicit() has no such term")
 K_ACTVEL = "actuation disabled: the C engine zeroes actuator_velocity, MJX still computes moment @ qvel"
+K_JACDOT = ("support.jac_dot: `jnt_type == JointType.FREE & (...)` parses as `jnt_type == (FREE & ...)`, so the translational dofs of "
+            "free joints get a quaternion-style cdof_dot: tendon_bias (spatial tendon armature) is wrong for free bodies with angular velocity")
+K_EULERDAMP = ("euler(): implicit damping is applied although the DAMPER disable flag is set (the C engine requires eulerdamp AND damper "
+               "enabled); masked by the passive() finding until that is repaired")
+K_REFSITE_LEN = ("transmission(): refsite actuator length composes orientations as site_quat*xquat; the C engine (fix 94125624a) "
+                 "uses xquat*site_quat")
+K_REFSITE_MOM = ("transmission(): refsite actuator moment subtracts the Jacobian of the reference site instead of the Jacobian of the "
+                 "site point carried by the reference body (C engine fix 5b2a1c9b9)")
 K_NOTOPT = "qacc is not the minimiser of the C engine's constraint problem although MJX's own solver reports a stationary point"
 
 
@@ -241,6 +249,11 @@ def compare_state(J, item, mt, C, X, i, st, xtype_static, part, stats):
                 key = None
                 if f in ("qfrc_passive", "qfrc_gravcomp") and bin(int(mt.opt.disableflags) & (32 | 64)).count("1") == 1:
                     key = K_PASSIVE     # exactly one of mjDSBL_SPRING (1<<5) / mjDSBL_DAMPER (1<<6)
+                if f == "qfrc_bias" and mt.ntendon and np.any(np.array(mt.tendon_armature) > 0) and np.any(np.array(mt.jnt_type) == 0) \
+                        and np.any(np.array(mt.wrap_type) == 3):
+                    key = K_JACDOT
+                if f in ("actuator_length", "actuator_moment") and mt.nu and np.any(np.array(mt.actuator_trnid)[:, 1] >= 0):
+                    key = K_REFSITE_LEN if f == "actuator_length" else K_REFSITE_MOM
                 if f == "M" and mt.ntendon and np.any(np.array(mt.tendon_armature) > 0):
                     pat = dense(mt.M_rownnz, mt.M_rowadr, mt.M_colind, np.ones(mt.nC), mt.nv, mt.nv) > 0
                     pat = pat | pat.T
@@ -357,6 +370,12 @@ def compare_state(J, item, mt, C, X, i, st, xtype_static, part, stats):
                 key = None
                 if f in ("next_qpos", "next_qvel"):
                     key = K_FORCERANGE if sat else (K_XTREE if cross else (K_FREEGYRO if gyro else None))
+                    dfl = int(mt.opt.disableflags)
+                    if key is None and int(mt.opt.integrator) == 1 and mt.neq and np.any(np.isin(np.array(mt.eq_type), (0, 1))) \
+                            and not (dfl & ((1 << 0) | (1 << 1))):
+                        key = K_JDOTV       # RK4: the later stages are evaluated at non-zero velocity
+                    if key is None and int(mt.opt.integrator) == 0 and (dfl & 64) and not (dfl & (1 << 15)) and np.any(np.array(mt.dof_damping) > 0):
+                        key = K_EULERDAMP
                 put("next", f, e, key)
     return div, info
 
@@ -420,8 +439,8 @@ def check_model(J, lib, part, item, cap):
     except Exception as e:   # put_model accepted the model: anything but a result is a violation
         where = H.mjx_frame(e)
         part.count(1, key=("raises", item["name"]))
-        part.violation("MJX raises %s in %s on an accepted model" % (type(e).__name__, where),
-                       "forward/step raised %s: %s (model %s)" % (type(e).__name__, str(e).splitlines()[0][:200], item["name"]),
+        part.violation("MJX raises %s in %s on an accepted model" % (type(e).__name__, where.split(":")[0]),
+                       "forward/step raised %s at %s: %s (model %s)" % (type(e).__name__, where, str(e).splitlines()[0][:200], item["name"]),
                        {"model": item["name"], "xml": xml})
         mt.free()
         return
@@ -512,22 +531,23 @@ def alphabet(thorough):
         trees += [((-1, 0, 1), ("free", "hinge", "ball")), ((-1, 0, 0), ("hinge", "slide", "hinge")),
                   ((-1, -1, 1), ("ball", "slidehinge", "hinge")), ((-1, 0, -1), ("slide", "ball", "free")),
                   ((-1, -1, -1), ("hinge", "free", "slide"))]
-    eqsets = [["connect", "joint"], ["joint", "tendon", "inactive"], ["weld", "inactive"], ["connect2", "weld_site", "tendon"],
-              ["connect_site", "weld2"]]
+    eqsets = [["connect", "joint"], ["connect2", "joint", "inactive"], ["weld", "tendon"], ["joint", "tendon", "inactive"],
+              ["connect_site", "weld2"], ["weld_site", "connect2", "tendon"]]
     for ti, (par, js) in enumerate(trees):
         tn = "%s:%s" % (",".join(map(str, par)), ",".join(js))
         # smooth family (no constraints): qacc and the next state are compared tightly
         o, desc = opt("smooth")
-        add(G.tree_model("smooth[%s]" % tn, par, js, o, tendon=True, spatial=(ti % 3 == 0) and "plain", gravcomp=(ti % 2 == 0),
+        free_sp = js[0] == "free" and ti % 2 == 1     # spatial tendon with armature on a free body: reaches support.jac_dot
+        add(G.tree_model("smooth[%s]" % tn, par, js, o, tendon=True, spatial=(ti % 3 == 0 or free_sp) and "plain", gravcomp=(ti % 2 == 0),
                          actuators=2 if (thorough or ti % 4 == 0) else 1, sensors=2 if (thorough or ti % 4 == 1) else 1,
-                         camera=(ti % 5 == 2), mocap=(ti % 6 == 3), tendon_armature=(ti % 4 == 2)), desc)
+                         camera=(ti % 5 == 2), mocap=(ti % 6 == 3), tendon_armature=(ti % 4 == 2 or free_sp)), desc)
         if thorough or ti % 2 == 0:
             o, desc = opt("constr")
             if desc[2] == "elliptic" and fam_count["constr"] > 2:
                 # MJX raises on elliptic cones without frictional contacts (reported once, by the first two elliptic
                 # models of this family); the remaining models stay informative with the pyramidal cone
                 o, desc = o.replace('cone="elliptic"', 'cone="pyramidal"'), desc[:2] + ("pyramidal",) + desc[3:]
-            add(G.tree_model("constr[%s]" % tn, par, js, o, limits=True, friction=True, equality=eqsets[(ti // (1 if thorough else 2)) % 5],
+            add(G.tree_model("constr[%s]" % tn, par, js, o, limits=True, friction=True, equality=eqsets[(ti // (1 if thorough else 2)) % 6],
                              tendon="full", actuators=1, sensors=1), desc)
     # flags
     flagsets = [dict(spring="disable"), dict(damper="disable"), dict(eulerdamp="disable"), dict(clampctrl="disable"),
